@@ -154,6 +154,35 @@ def cov_cases(rng, n, ctx):
     return cases
 
 
+def rolling_cases(rng, n, ctx):
+    """history: one observable is kept while its partners come and go (a loop over candidates that are dropped after the request) - every
+    request is judged like any other: nothing remembered about an earlier partner may enter"""
+    cases = []
+    for i in range(n):
+        idl = gen.make_idl(rng, str(rng.choice(gen.IDL_CLASSES)), int(rng.integers(14, 40)))
+        a = gen.make_obs(rng, [('A|r1', idl)], mean=1.0, sigma=0.3, tau=float(rng.choice([0, 2])))
+        a.gamma_method()
+        for j in range(5):
+            mix = float([0.95, -0.2, 0.0, 0.6, -0.9][j])
+            b = gen.make_obs(rng, [('A|r1', idl)], mean=2.0, sigma=0.3) + mix * (a - a.value) if mix else gen.make_obs(rng, [('A|r1', idl)], mean=2.0, sigma=0.3)
+            b.gamma_method()
+            objs = [a, b]
+            try:
+                with np.errstate(all='ignore'):
+                    C = pe.covariance(objs)
+                    K = pe.covariance(objs, correlation=True)
+                    Cp = pe.covariance([b, a])
+                    Kp = pe.covariance([b, a], correlation=True)
+            except Exception as e:  # noqa: BLE001
+                cases.append({'id': 'roll-%03d-%d' % (i, j), 'ev': 'raised', 't': type(e).__name__})
+                continue
+            cases.append({'id': 'roll-%03d-%d' % (i, j), 'ev': 'cov', 'objs': [project_obs(o) for o in objs], 'dvalues': [ratx(float(o.dvalue)) for o in objs],
+                          'cov': mat(C), 'corr': mat(K), 'perm': [2, 1], 'cov_perm': mat(Cp), 'corr_perm': mat(Kp)})
+            ctx.nontrivial.add(('roll', i, j))
+            del b, objs
+    return cases
+
+
 def band_cases(rng, n, ctx):
     cases = []
     for i in range(n):
@@ -250,4 +279,5 @@ def run(ctx):
     cases = sortcorr_cases(ctx, 'Gen_SortCorr_small.cfg' if q else 'Gen_SortCorr.cfg')
     cases += cov_cases(rng, 100 if q else 1200, ctx)
     cases += band_cases(rng, 30 if q else 300, ctx)
+    cases += rolling_cases(rng, 8 if q else 80, ctx)
     ctx.validate('CovTrace', cases)
